@@ -214,6 +214,10 @@ type c14FlushRec struct {
 }
 
 type c14Probe struct {
+	// block: while set, the probe (last tracker of the registry) answers produceCommittingTask
+	// with nil, which makes trackerRegistry.scheduleCommit drop the commit it was about to
+	// schedule: the node "lags with its flushes" (commit syncer busy / deferredCommits full).
+	block     atomic.Bool
 	mu        sync.Mutex
 	committed basics.Round // highest round passed to committedUpTo
 	cond      *sync.Cond
@@ -240,6 +244,9 @@ func (p *c14Probe) commitRound(context.Context, trackerdb.TransactionScope, *def
 	return nil
 }
 func (p *c14Probe) produceCommittingTask(_ basics.Round, _ basics.Round, dcr *deferredCommitRange) *deferredCommitRange {
+	if p.block.Load() {
+		return nil
+	}
 	return dcr
 }
 func (p *c14Probe) committedUpTo(rnd basics.Round) (basics.Round, basics.Round) {
@@ -428,6 +435,65 @@ func (n *c14Node) addBatch(blks []bookkeeping.Block, flush bool) error {
 	}
 	n.settle(blks[len(blks)-1].Round())
 	return nil
+}
+
+// crashCommit performs the commit that notifyCommit would schedule now, but only up to and
+// including the tracker database transaction (prepareCommit of every tracker, commitRound of
+// every tracker + UpdateAccountsRound inside one transaction - the first half of
+// trackerRegistry.commitRound, like upstream's commitSyncPartial) and then stops: postCommit and
+// postCommitUnlocked never run. Together with the restart that the caller performs next this is
+// a process crash right after the commit became durable; the restarted catchpoint tracker has
+// to finish first stages / catchpoints from the records in the database (recoverFromCrash).
+// Returns false when there was nothing to commit.
+func (n *c14Node) crashCommit() (bool, error) {
+	l := n.l
+	rnd, _ := l.LatestCommitted()
+	l.trackerMu.Lock()
+	defer l.trackerMu.Unlock()
+	tr := &l.trackers
+	maxLookback := basics.Round(0)
+	for _, lt := range tr.trackers {
+		if _, lookback := lt.committedUpTo(rnd); lookback > maxLookback {
+			maxLookback = lookback
+		}
+	}
+	dcc := &deferredCommitContext{deferredCommitRange: deferredCommitRange{lookback: maxLookback}}
+	was := n.probe.block.Swap(false)
+	tr.mu.RLock()
+	cdr := tr.produceCommittingTask(rnd, tr.dbRound, &dcc.deferredCommitRange)
+	tr.mu.RUnlock()
+	n.probe.block.Store(was)
+	if cdr == nil || cdr.offset == 0 {
+		return false, nil
+	}
+	dcc.deferredCommitRange = *cdr
+	dcc.flushTime = time.Now()
+	newBase := dcc.newBase()
+	tr.mu.RLock()
+	for _, lt := range tr.trackers {
+		if err := lt.prepareCommit(dcc); err != nil {
+			tr.mu.RUnlock()
+			return false, fmt.Errorf("prepareCommit: %v", err)
+		}
+	}
+	tr.mu.RUnlock()
+	err := tr.dbs.Transaction(func(ctx context.Context, tx trackerdb.TransactionScope) error {
+		aw, err := tx.MakeAccountsWriter()
+		if err != nil {
+			return err
+		}
+		for _, lt := range tr.trackers {
+			if err := lt.commitRound(ctx, tx, dcc); err != nil {
+				return err
+			}
+		}
+		return aw.UpdateAccountsRound(newBase)
+	})
+	if err != nil {
+		return false, fmt.Errorf("commit transaction: %v", err)
+	}
+	atomic.AddInt64(&n.ops, 1)
+	return true, nil
 }
 
 // reload is Ledger.reloadLedger (the in-process restart used by catchup / tests).
@@ -834,8 +900,8 @@ func c14HistBoxes(t testing.TB, dir string, proto protocol.ConsensusVersion, rou
 	b.block(c14Call(a[3], app, "bput", "c", ""))            // r10 empty box
 	b.block(c14Call(a[1], app, "bput", "t", "x"), c14Call(a[2], app, "bdel", "t")) // r11 came and went in one block
 	b.block(c14Call(a[1], app, "bput", "t2", "x"))          // r12
-	b.block(c14Call(a[1], app, "bdel", "t2"))               // r13 came and went across blocks
-	b.block(c14Call(a[1], app, "bput", "a", "zzzz"))        // r14
+	b.block(c14Call(a[1], app, "bdel", "t2"), c14Call(a[4], app, "bput", "e", "")) // r13 t2 came and went across blocks; zero-length box e created
+	b.block(c14Call(a[1], app, "bput", "a", "zzzz"), c14Call(a[4], app, "bdel", "e")) // r14 zero-length box deleted in the next round
 	b.block(c14Call(a[1], app, "bdel", "c"))                // r15
 	for len(b.h.Blocks) < rounds {
 		r := len(b.h.Blocks) + 1
@@ -1036,6 +1102,12 @@ type c14Plan struct {
 	// rounds BurstStart .. BurstStart+BurstLen-1 are persisted by the block queue as one batch
 	// (0 = every block on its own); the flush decision of the last round of the batch applies.
 	BurstStart, BurstLen int
+	// Crash: after round RestartAt the pending commit is executed up to the database transaction
+	// only (crashCommit) and the node restarts. During the CrashLag rounds before (and
+	// including) RestartAt the node does not commit at all, so the crashed commit covers a
+	// longer range.
+	Crash    bool
+	CrashLag int
 }
 
 // c14Run replays the history on the node according to the plan.
@@ -1065,6 +1137,9 @@ func c14RunHook(n *c14Node, h *c14History, p c14Plan, hook func(step int, restar
 		if i < len(p.Flush) {
 			fl = p.Flush[i]
 		}
+		if p.Crash && i+1 > p.RestartAt-p.CrashLag && i+1 <= p.RestartAt {
+			n.probe.block.Store(true)
+		}
 		if err := n.addBatch(batch, fl); err != nil {
 			return o, fmt.Errorf("AddBlock(%d..%d): %v", batch[0].Round(), i+1, err)
 		}
@@ -1076,6 +1151,12 @@ func c14RunHook(n *c14Node, h *c14History, p c14Plan, hook func(step int, restar
 		}
 		if p.RestartAt == i+1 {
 			var err error
+			if p.Crash {
+				if _, err = n.crashCommit(); err != nil {
+					return o, fmt.Errorf("crash commit after round %d: %v", i+1, err)
+				}
+				n.probe.block.Store(false)
+			}
 			if p.Reopen {
 				err = n.reopen()
 			} else {
